@@ -4,6 +4,7 @@ import (
 	"bufio"
 	"bytes"
 	"fmt"
+	"io"
 	"os"
 	"runtime"
 	"strings"
@@ -575,6 +576,45 @@ func init() {
 			}
 		}
 		c.runJobs(jobs)
+		// histories: several Loads first, the streams are read only afterwards (and in another order)
+		for round := 0; round < c.n(60, 600); round++ {
+			k := 2 + rng.Intn(4)
+			type pending struct {
+				name  string
+				which string
+				data  []byte
+				st    io.Reader
+			}
+			var ps []pending
+			for i := 0; i < k; i++ {
+				in := inputs[rng.Intn(len(inputs))]
+				which := []string{"png", "jpeg", "webp", "auto", "auto"}[rng.Intn(5)]
+				var st io.Reader
+				if callNoPanic(func() { _, st, _ = loaders[which](bytes.NewReader(in.data)) }) {
+					c.res.fail(Failure{Class: "C07:panic:" + which, Desc: "loader panicked", Input: in.name, Got: "panic", Want: "value or error"})
+					continue
+				}
+				ps = append(ps, pending{in.name, which, in.data, st})
+			}
+			order := rng.Perm(len(ps))
+			var names []string
+			for _, p := range ps {
+				names = append(names, p.which+":"+p.name)
+			}
+			for _, i := range order {
+				p := ps[i]
+				c.res.count("history", fmt.Sprint(round, i), true)
+				if p.st == nil {
+					c.res.fail(Failure{Class: "C07:nil-stream:" + p.which, Desc: "loader returned a nil stream", Input: p.name, Got: "nil", Want: "stream"})
+					continue
+				}
+				got, end := drainStream(p.st)
+				if !bytes.Equal(got, p.data) || end != "eof" {
+					c.res.fail(Failure{Class: "C07:history:" + p.which, Desc: fmt.Sprintf("after the sequence of loads %v, the stream returned for load #%d no longer replays its input", names, i),
+						Input: map[string]interface{}{"loads": names, "read_order": order, "stream": i, "bytes": len(p.data)}, Got: fmt.Sprintf("%d bytes, first difference at %d, end=%s", len(got), firstDiff(got, p.data), end), Want: fmt.Sprintf("%d bytes", len(p.data))})
+				}
+			}
+		}
 	}
 
 	// ---------- C08 ----------
@@ -690,7 +730,7 @@ func init() {
 			bodies = append(bodies, 4<<20, 8<<20-5000, 64<<20)
 		}
 		for _, body := range bodies {
-			for rep := 0; rep < c.n(2, 6); rep++ {
+			for rep := 0; rep < c.n(4, 8); rep++ {
 				icc := []byte(nil)
 				if rng.Intn(2) == 0 {
 					icc = genProfile(rng, pick(rng, 300, 3000, 5000, 70000), rng.Intn(2) == 0)
@@ -699,12 +739,19 @@ func init() {
 				f := buildPNG(rng, pngOpt{w: 100, h: 100, depth: 8, ctype: 2, nAnc: nAnc, icc: icc, iccName: "p", iccLevel: 6, iccPos: rng.Intn(nAnc + 1), body: body, smallAnc: rng.Intn(2) == 0})
 				f.Name = fmt.Sprintf("png-body%d-icc%d", body, len(icc))
 				files = append(files, f)
-				j := buildJPEG(rng, jpegOpt{w: 100, h: 100, precision: 8, ncomp: 3, nBefore: rng.Intn(3), nAfter: rng.Intn(3), icc: icc, chunkSize: 0, iccAfterSOF: rng.Intn(2) == 0, body: body, realTables: tables})
-				j.Name = fmt.Sprintf("jpeg-body%d-icc%d", body, len(icc))
+				jo := jpegOpt{w: 100, h: 100, precision: 8, ncomp: 3, nBefore: rng.Intn(3), nAfter: rng.Intn(3), icc: icc, chunkSize: 0, iccAfterSOF: rng.Intn(2) == 0, body: body, realTables: tables,
+					app2AfterICC: rng.Intn(2) == 0, bigTail: pick(rng, 0, 0, 3)}
+				j := buildJPEG(rng, jo)
+				j.Name = fmt.Sprintf("jpeg-body%d-icc%d-app2AfterICC%v-bigTail%d-iccAfterSOF%v", body, len(icc), jo.app2AfterICC, jo.bigTail, jo.iccAfterSOF)
 				files = append(files, j)
 				kind := []string{"vp8", "vp8l", "vp8x"}[rng.Intn(3)]
-				wf := buildWebP(rng, webpOpt{kind: kind, w: 100, h: 100, icc: icc, flagICC: icc != nil && kind == "vp8x", body: body})
-				wf.Name = fmt.Sprintf("webp-%s-body%d-icc%d", kind, body, len(icc))
+				wo := webpOpt{kind: kind, w: 100, h: 100, icc: icc, flagICC: icc != nil && kind == "vp8x", body: body}
+				if kind == "vp8x" {
+					wo.extra = []string{"", "alph", "anmf"}[rng.Intn(3)]
+					wo.extraSize = pick(rng, 100, 70000, 300000)
+				}
+				wf := buildWebP(rng, wo)
+				wf.Name = fmt.Sprintf("webp-%s-body%d-icc%d-%s%d", kind, body, len(icc), wo.extra, wo.extraSize)
 				files = append(files, wf)
 			}
 		}
@@ -825,6 +872,39 @@ func init() {
 			})
 		}
 		c.runJobs(jobs)
+		// histories: several auto-detecting loads first, their streams read afterwards
+		for round := 0; round < c.n(60, 600); round++ {
+			k := 2 + rng.Intn(4)
+			var sts []io.Reader
+			var ins []inp
+			for i := 0; i < k; i++ {
+				in := inputs[rng.Intn(len(inputs))]
+				if len(in.data) > 100000 {
+					continue
+				}
+				var st io.Reader
+				if callNoPanic(func() { _, st, _ = loaders["auto"](bytes.NewReader(in.data)) }) {
+					continue
+				}
+				sts = append(sts, st)
+				ins = append(ins, in)
+			}
+			for _, i := range rng.Perm(len(sts)) {
+				c.res.count("history", fmt.Sprint("h", round, i), true)
+				got, end := []byte(nil), "nilstream"
+				if sts[i] != nil {
+					got, end = drainStream(sts[i])
+				}
+				if !bytes.Equal(got, ins[i].data) || end != "eof" {
+					var names []string
+					for _, x := range ins {
+						names = append(names, x.name)
+					}
+					c.res.fail(Failure{Class: "C19:history", Desc: fmt.Sprintf("after the sequence of autometa loads %v, the stream of load #%d no longer replays its input", names, i),
+						Input: map[string]interface{}{"loads": names, "stream": i, "bytes": len(ins[i].data)}, Got: fmt.Sprintf("%d bytes, first difference at %d, end=%s", len(got), firstDiff(got, ins[i].data), end), Want: fmt.Sprintf("%d bytes", len(ins[i].data))})
+				}
+			}
+		}
 	}
 }
 
